@@ -7,9 +7,16 @@ package nodenumaresource
 //   recommit(p)     = resourceManager.Update with the allocation p already holds (informer echo of the annotated pod)
 //   recommit-alt(p) = resourceManager.Update with another allocation for p (annotation written by another scheduler
 //                     instance / before a restart); only produced when that allocation is free for p, see assumptions
+//   alloc(x as owner of reservation y) = resourceManager.Allocate with preferredCPUs = the CPUs recorded for pod y
+//                     (what tryAllocateFromReusable passes for a Default/Aligned reservation: every CPU of the reserve
+//                     pod, consumed or not) + commit. The reserve pod stays recorded as a pod, so a consumed reserved
+//                     CPU has RefCount = owners + 1, exactly as the plugin accounts it.
 // Reference model: map pod -> (CPU bit mask, per-NUMA milli amounts) kept by this file.
 // Oracle: on every successful Allocate the clauses of part (a) plus, with a hint, sum == request and per node <=
-// free; in every state: for every CPU RefCount == number of live pods holding it <= sharing limit, the recorded pods
+// free (for an owner of reservation y a CPU is free when its holders, NOT counting y's own reference, are below the
+// sharing limit: a reserved CPU another pod already consumed is not free again);
+// in every state: for every CPU RefCount == number of live pods holding it, and that number -- not counting a
+// reservation on the CPUs one of its owners holds -- is <= the sharing limit, the recorded pods
 // are the live pods, allocatedResources[node] == sum of the live pods' amounts; commit followed by release gives
 // back the ledger as it was (amounts and ref counts).
 
@@ -57,6 +64,17 @@ type c06RefPod struct {
 	cpus uint32
 	excl schedulingconfig.CPUExclusivePolicy
 	numa map[int]map[string]int64 // node -> resource -> milli
+	// resvOf: 0 = a plain allocation; 1+y = this pod was allocated as an owner of "reservation" pod y, i.e. with
+	// preferred CPUs = the CPUs recorded for y (the plugin restores one reference of each of them)
+	resvOf int
+}
+
+// c06From is the event "allocate pod X as an owner of the reservation held by pod Y, and commit": what
+// tryAllocateFromReusable does for a Default/Aligned reservation -- resourceManager.Allocate with preferredCPUs = all
+// CPUs recorded for the reserve pod (allocated and remaining ones), the reserve pod itself staying recorded as a pod.
+type c06From struct {
+	X, Y int
+	Spec c06Spec
 }
 
 type c06HistCfg struct {
@@ -69,6 +87,7 @@ type c06HistCfg struct {
 	MemPerNode int64
 	Specs      [3][]c06Spec
 	Alts       [3]c06RefPod
+	Froms      []c06From
 	res        *mc.Result
 }
 
@@ -80,6 +99,10 @@ const (
 )
 
 func (c *c06HistCfg) opName(op int) string {
+	if op >= 3*c06OpsPerPod {
+		f := c.Froms[op-3*c06OpsPerPod]
+		return fmt.Sprintf("alloc+commit(%s as owner of reservation %s: %s)", c06PodNames[f.X], c06PodNames[f.Y], f.Spec)
+	}
 	p, k := op/c06OpsPerPod, op%c06OpsPerPod
 	switch {
 	case k < c06SpecsPerPod:
@@ -140,6 +163,24 @@ func (s *c06Sys) freeFor(except int) uint32 {
 	return m
 }
 
+// freeForOwnerOf: the CPUs free for a pod that consumes the reservation held by live pod y: one reference of y on
+// its own CPUs does not count -- but every other holder does (a reserved CPU that another owner already took is not
+// free again).
+func (s *c06Sys) freeForOwnerOf(y int) uint32 {
+	var m uint32
+	ry := s.live[y]
+	for id := 0; id < s.cfg.L.N; id++ {
+		h := s.holders(id, -1)
+		if ry != nil && ry.cpus&(1<<uint(id)) != 0 {
+			h--
+		}
+		if s.cfg.Reserved&(1<<uint(id)) == 0 && h < s.cfg.MaxRef {
+			m |= 1 << uint(id)
+		}
+	}
+	return m
+}
+
 func (s *c06Sys) ledgerRef(node int, resName string, except int) int64 {
 	var sum int64
 	for p, rp := range s.live {
@@ -185,6 +226,13 @@ func c06FromAllocation(a *PodAllocation, n int) (*c06RefPod, string) {
 
 func (s *c06Sys) Apply(op int, check bool) (bool, []mc.Violation) {
 	cfg := s.cfg
+	if op >= 3*c06OpsPerPod {
+		f := cfg.Froms[op-3*c06OpsPerPod]
+		if s.live[f.X] != nil || s.live[f.Y] == nil || s.live[f.Y].cpus == 0 {
+			return false, nil
+		}
+		return true, s.alloc(f.X, c06SpecsPerPod+f.Y, f.Spec, f.Y, check)
+	}
 	p, k := op/c06OpsPerPod, op%c06OpsPerPod
 	uid := types.UID(c06PodNames[p])
 	switch {
@@ -192,7 +240,7 @@ func (s *c06Sys) Apply(op int, check bool) (bool, []mc.Violation) {
 		if s.live[p] != nil {
 			return false, nil
 		}
-		return true, s.alloc(p, k, cfg.Specs[p][k], check)
+		return true, s.alloc(p, k, cfg.Specs[p][k], -1, check)
 	case k == c06SpecsPerPod:
 		s.rm.Release(c06Node, uid)
 		if s.live[p] != nil && check {
@@ -235,7 +283,7 @@ func (s *c06Sys) Apply(op int, check bool) (bool, []mc.Violation) {
 	return true, nil
 }
 
-func (s *c06Sys) alloc(p, k int, spec c06Spec, check bool) (viol []mc.Violation) {
+func (s *c06Sys) alloc(p, k int, spec c06Spec, from int, check bool) (viol []mc.Violation) {
 	cfg, l := s.cfg, s.cfg.L
 	bp := c06BindPolicies[spec.Bind]
 	cpuQ := *resource.NewQuantity(int64(spec.N), resource.DecimalSI)
@@ -255,6 +303,9 @@ func (s *c06Sys) alloc(p, k int, spec c06Spec, check bool) (viol []mc.Violation)
 	if spec.CPUBind {
 		opts.numCPUsNeeded = spec.N
 	}
+	if from >= 0 {
+		opts.preferredCPUs = c06MaskToSet(s.live[from].cpus)
+	}
 	if spec.Hint != nil {
 		mask, err := bitmask.NewBitMask(spec.Hint...)
 		if err != nil {
@@ -270,6 +321,7 @@ func (s *c06Sys) alloc(p, k int, spec c06Spec, check bool) (viol []mc.Violation)
 		return nil
 	}
 	rp, bad := c06FromAllocation(a, l.N)
+	rp.resvOf = from + 1
 	if check {
 		cfg.res.Count("alloc_success", 1)
 		cfg.res.Count(fmt.Sprintf("alloc_success_%s%d", c06PodNames[p], k), 1)
@@ -278,6 +330,17 @@ func (s *c06Sys) alloc(p, k int, spec c06Spec, check bool) (viol []mc.Violation)
 			viol = append(viol, mc.Violation{Key: "C06|hist|" + key, What: what + " -- " + replay})
 		}
 		free := s.freeFor(-1)
+		if from >= 0 {
+			free = s.freeForOwnerOf(from)
+			replay += fmt.Sprintf(" as owner of reservation %s (cpus %v)", c06PodNames[from], c06MaskList(s.live[from].cpus))
+			cfg.res.Count("alloc_as_reservation_owner_success", 1)
+			if rp.cpus&s.live[from].cpus != 0 {
+				cfg.res.Count("alloc_as_reservation_owner_took_reserved_cpus", 1)
+			}
+			if s.live[from].cpus&^free != 0 {
+				cfg.res.Count("alloc_as_reservation_owner_while_part_of_the_reservation_is_not_free_for_it", 1)
+			}
+		}
 		if bad != "" {
 			add("malformed-set", bad)
 		}
@@ -289,7 +352,7 @@ func (s *c06Sys) alloc(p, k int, spec c06Spec, check bool) (viol []mc.Violation)
 			case rp.cpus&cfg.Reserved != 0:
 				add("reserved-cpu-handed-out", fmt.Sprintf("result contains reserved CPUs %v", c06MaskList(rp.cpus&cfg.Reserved)))
 			case rp.cpus&^free != 0:
-				add("cpu-not-free", fmt.Sprintf("result contains CPUs %v that are at the sharing limit %d", c06MaskList(rp.cpus&^free), cfg.MaxRef))
+				add("cpu-not-free", fmt.Sprintf("result contains CPUs %v that are not free for this pod (sharing limit %d); reference: %s", c06MaskList(rp.cpus&^free), cfg.MaxRef, s.refString()))
 			}
 			if cfg.MaxRef > 1 {
 				for id := 0; id < l.N; id++ {
@@ -362,7 +425,7 @@ func (s *c06Sys) Invariants() (viol []mc.Violation) {
 	add := func(key, what string) {
 		viol = append(viol, mc.Violation{Key: "C06|hist|" + key, What: what + "\nledger:\n" + c06Ledger(na, false) + "reference: " + s.refString()})
 	}
-	shared := false
+	shared, resvShared := false, false
 	for id := 0; id < l.N; id++ {
 		rc := 0
 		if info, ok := na.allocatedCPUs[id]; ok {
@@ -372,8 +435,24 @@ func (s *c06Sys) Invariants() (viol []mc.Violation) {
 		if rc != h {
 			add("refcount-ne-holders", fmt.Sprintf("CPU %d: RefCount %d but %d live pod(s) hold it", id, rc, h))
 		}
-		if h > cfg.MaxRef {
-			add("cpu-held-beyond-sharing-limit", fmt.Sprintf("CPU %d is held by %d live pods, sharing limit %d", id, h, cfg.MaxRef))
+		// a reservation's own reference does not count against the limit where one of its owners holds the CPU
+		discount := 0
+		for r, rr := range s.live {
+			if rr.cpus&(1<<uint(id)) == 0 {
+				continue
+			}
+			for x, rx := range s.live {
+				if x != r && rx.resvOf == r+1 && rx.cpus&(1<<uint(id)) != 0 {
+					discount++
+					break
+				}
+			}
+		}
+		if discount > 0 {
+			resvShared = true
+		}
+		if h-discount > cfg.MaxRef {
+			add("cpu-held-beyond-sharing-limit", fmt.Sprintf("CPU %d is held by %d live pods (%d of them reservations consumed by one of the others), sharing limit %d", id, h, discount, cfg.MaxRef))
 		}
 		if h > 1 {
 			shared = true
@@ -386,6 +465,9 @@ func (s *c06Sys) Invariants() (viol []mc.Violation) {
 	}
 	if shared {
 		cfg.res.Count("states_with_a_cpu_held_twice", 1)
+	}
+	if resvShared {
+		cfg.res.Count("states_with_a_cpu_held_by_reservation_and_owner", 1)
 	}
 	if len(na.allocatedPods) != len(s.live) {
 		add("recorded-pods-ne-live-pods", fmt.Sprintf("%d pods recorded, %d live", len(na.allocatedPods), len(s.live)))
@@ -448,7 +530,11 @@ func (s *c06Sys) refString() string {
 	var sb strings.Builder
 	for p := 0; p < 3; p++ {
 		if rp := s.live[p]; rp != nil {
-			fmt.Fprintf(&sb, "%s:cpus%v excl=%q numa%s; ", c06PodNames[p], c06MaskList(rp.cpus), rp.excl, c06AmountsString(rp.numa))
+			fmt.Fprintf(&sb, "%s:cpus%v excl=%q numa%s", c06PodNames[p], c06MaskList(rp.cpus), rp.excl, c06AmountsString(rp.numa))
+			if rp.resvOf > 0 {
+				fmt.Fprintf(&sb, " owner-of-reservation=%s", c06PodNames[rp.resvOf-1])
+			}
+			sb.WriteString("; ")
 		}
 	}
 	return sb.String()
@@ -508,6 +594,17 @@ func c06HistConfigs(thorough bool) []*c06HistCfg {
 			}
 			c.Alts[p] = c06RefPod{cpus: altCPUs[p], excl: []schedulingconfig.CPUExclusivePolicy{none, pcpu, numa}[p], numa: c06Amounts(l, altCPUs[p], altMem[p])}
 		}
+		// reservation-owner events: c acts as the reservation for a and b (so that it gets consumed piecewise: c; a from
+		// c; b from c; release a; ...), b for c. The owners ask for few CPUs and without NUMA hint.
+		big := 1
+		if l.N >= 12 {
+			big = 3
+		}
+		c.Froms = []c06From{
+			{X: 0, Y: 2, Spec: bind(2, fullP, none)},
+			{X: 1, Y: 2, Spec: bind(big, dflt, pcpu)},
+			{X: 2, Y: 1, Spec: bind(1, spreadP, none)},
+		}
 		out = append(out, c)
 	}
 	// one NUMA node, 2 cores x 2 threads
@@ -564,11 +661,12 @@ func TestVerifC06Hist(t *testing.T) {
 		sub.Budget = (env.Budget - env.Elapsed()) / time.Duration(len(cfgs)-ci)
 		res := mc.NewResult("C06", "hist-"+cfg.Name, "bfs")
 		cfg.res = res
-		res.Rule = "every sequence of {alloc+commit with spec A, with spec B, release, recommit-same, recommit-alt} x pods {a,b,c} up to the depth bound, states merged by (reference model, complete real ledger); " +
+		res.Rule = "every sequence of {alloc+commit with one of four specs, release, recommit-same, recommit-alt} x pods {a,b,c} plus {alloc+commit a resp. b as owner of reservation c, c as owner of reservation b (preferred CPUs = the reserve pod's recorded CPUs)} up to the depth bound, states merged by (reference model, complete real ledger); " +
 			"distinct = distinct reachable (reference, ledger) states"
 		res.Assumptions = []string{
 			"re-commits with a different allocation (resourceManager.Update from pod annotations) only carry CPU sets that are free for that pod and per-NUMA amounts that fit: the environment does not itself report two pods on one exclusive CPU",
 			"one node; the CPU topology, reserved CPUs and sharing limit do not change during a history",
+			"reservation owners are allocated the Default/Aligned way (preferred = all CPUs of the reserve pod) and without NUMA hint; the Restricted policy's second pass (preferred = remaining CPUs only), reusable NUMA amounts and preemption restore are not modelled",
 		}
 		specs := map[string]any{}
 		for p := 0; p < 3; p++ {
@@ -579,7 +677,7 @@ func TestVerifC06Hist(t *testing.T) {
 			specs[c06PodNames[p]] = append(list, "alt: "+fmt.Sprint(c06MaskList(cfg.Alts[p].cpus))+" "+c06AmountsString(cfg.Alts[p].numa))
 		}
 		res.Bounds = map[string]any{"topology": cfg.L.Name, "max_ref_count": cfg.MaxRef, "reserved": c06MaskList(cfg.Reserved), "pods": specs}
-		b := &mc.BFS{Res: res, Env: sub, New: func() mc.System { return c06NewSys(cfg) }, NumOps: 3 * c06OpsPerPod,
+		b := &mc.BFS{Res: res, Env: sub, New: func() mc.System { return c06NewSys(cfg) }, NumOps: 3*c06OpsPerPod + len(cfg.Froms),
 			OpName: cfg.opName, MaxDepth: env.Pick(6, 9), Repeats: 1}
 		b.Run() // (in replay mode the engine re-executes the stored history of the matching part instead)
 		for p := 0; p < 3 && env.Replay == ""; p++ {
@@ -587,6 +685,11 @@ func TestVerifC06Hist(t *testing.T) {
 				if res.Counters[fmt.Sprintf("alloc_success_%s%d", c06PodNames[p], k)] == 0 {
 					res.Diag(fmt.Sprintf("vacuity warning: spec %d of pod %s (%s) never allocated successfully", k, c06PodNames[p], cfg.Specs[p][k]))
 				}
+			}
+		}
+		for _, f := range cfg.Froms {
+			if env.Replay == "" && res.Counters[fmt.Sprintf("alloc_success_%s%d", c06PodNames[f.X], c06SpecsPerPod+f.Y)] == 0 {
+				res.Diag(fmt.Sprintf("vacuity warning: %s never allocated successfully as owner of reservation %s", c06PodNames[f.X], c06PodNames[f.Y]))
 			}
 		}
 		env.Emit(res)
